@@ -274,13 +274,41 @@ def judge(ctx, case):
                     "idx_in": idx_in,
                     "idx_out": idx_out,
                 }
+                ext_set = method == "adds" and ni > 0 and (h % 3 == 0)
+                if ext_set:
+                    # inputs that also carry the extended fields (value / locking script of the spent output): these are not part of the wire format
+                    for j, q in enumerate(req["ins"]):
+                        if (h >> j) & 1:
+                            q["satoshis"] = (h * 2654435761 + j) % 2**64
+                        if (h >> (j + 7)) & 1 or j == 0:
+                            q["locking"] = "76a914" + wire.sha256(b"lk%d" % j)[:20].hex() + "88ac"
+                    sat = [q.get("satoshis") for q in req["ins"]]
+                    if sum(v for v in sat if v is not None) >= 2**64:
+                        req["totals"] = False  # the exact input total does not fit the accessor's return type (no claim, as for outputs)
+                    ctx.hit("build_with_extended_fields")
                 rb = ctx.call(req)
                 ctx.hit("build")
                 if "ok" not in rb:
                     ctx.ev()
                     ctx.viol("construction API (%s) failed for fields that parse fine" % method, {"resp": {x: rb[x] for x in rb if x in ("err", "panic", "alloc_guard", "death")}})
                 else:
-                    compare_dump(ctx, rb["ok"], tx, raw, idx_in, idx_out, "build:%s" % method)
+                    if ext_set:
+                        # the extended accessors legitimately differ from a plain parse; the wire-level clauses must not
+                        o2 = rb["ok"]
+                        ctx.ev()
+                        if "sat_in" in o2:
+                            sat = [q.get("satoshis") for q in req["ins"]]
+                            want = sum(sat) if all(v is not None for v in sat) else None
+                            if o2["sat_in"] != want:
+                                ctx.viol("build:adds with extended fields set: input total differs from the sum of the recorded values", {"got": o2["sat_in"], "expected": want})
+                        if o2["bytes"] != raw.hex() or o2["id"] != wire.txid(raw).hex() or o2["size"] != len(raw):
+                            ctx.viol("build:adds with extended fields set: serialisation / id / size differ from the same fields without them", {"got": o2["bytes"][:300], "expected": raw.hex()[:300]})
+                        for x in o2["ins"]:
+                            e = tx["ins"][x["i"]]
+                            if x["script"] != e["script"].hex() or x["script_size"] != len(e["script"]):
+                                ctx.viol("build:adds with extended fields set: unlocking script accessor changed", {"got": x["script"][:100]})
+                    else:
+                        compare_dump(ctx, rb["ok"], tx, raw, idx_in, idx_out, "build:%s" % method)
     elif k == "mut":
         raw = bytes.fromhex(case["hex"])
         ctx.hit("mutant")
